@@ -25,7 +25,7 @@ def scratch(tmp, name):
     return d
 
 
-def evaluate(prop, x, src=None, keep=False, quiet=False):
+def evaluate(prop, x, src=None, keep=False, quiet=False, name=None):
     src = src or '/tmp/wt_%s/_seed/%s' % (prop, x)
     patch = os.path.join(src, 'patch.diff')
     demo = os.path.join(src, 'demo.py')
@@ -64,7 +64,7 @@ def evaluate(prop, x, src=None, keep=False, quiet=False):
         ok = res['tests_pass'] and res['demo_fails_with_patch'] and res['demo_passes_without']
         res['valid'] = ok
         if keep and ok:
-            dst = os.path.join(V, 'seeded', '%s-%s' % (prop, x))
+            dst = os.path.join(V, 'seeded', name or '%s-%s' % (prop, x))
             os.makedirs(dst, exist_ok=True)
             if os.path.abspath(src) != os.path.abspath(dst):
                 shutil.copy(patch, os.path.join(dst, 'patch.diff'))
@@ -89,5 +89,11 @@ def evaluate(prop, x, src=None, keep=False, quiet=False):
 
 if __name__ == '__main__':
     prop, x = sys.argv[1], sys.argv[2]
-    r = evaluate(prop, x, keep='--keep' in sys.argv)
+    src = None
+    if '--src' in sys.argv:
+        src = sys.argv[sys.argv.index('--src') + 1]
+    name = None
+    if '--name' in sys.argv:
+        name = sys.argv[sys.argv.index('--name') + 1]
+    r = evaluate(prop, x, src=src, keep='--keep' in sys.argv, name=name)
     print(json.dumps(r, indent=1))
